@@ -205,6 +205,28 @@ func c18ByteSpace(r *ev.Run) (evals int64) {
 	return evals
 }
 
+// (c') the rounding function itself for every power of two and its neighbours up to 2^62 (tables
+// that large cannot be allocated, so the function is called directly through the white-box export)
+func c18Next2PowerSweep() (int64, *c18Viol) {
+	var n int64
+	for k := uint(1); k <= 62; k++ {
+		for _, x := range []int64{1<<k - 1, 1 << k, 1<<k + 1, 1<<k + 1<<(k/2), 3 << (k - 1)} {
+			if x < 2 || x > 1<<62 {
+				continue
+			}
+			n++
+			want := int64(1)
+			for want < x {
+				want <<= 1
+			}
+			if got := ristretto.VerifNext2Power(x); got != want {
+				return n, &c18Viol{"C18/next-power-of-two-wrong", fmt.Sprintf("the table-size rounding of NumCounters=%d gives %d, the next power of two is %d", x, got, want)}
+			}
+		}
+	}
+	return n, nil
+}
+
 // (c) sizing
 func c18SizeCheck(nc int64) *c18Viol {
 	var v *c18Viol
@@ -973,6 +995,55 @@ func c18(tier string, r *ev.Run, replay string) {
 			r.Violation(v.key, v.what, c18Case{Part: "size", NumCounters: nc})
 		}
 	}
+	// (d) doorkeeper edge hashes: hashes whose first-access mark lies in the first / last word of
+	// the doorkeeper's bitset (all-ones high part with zero low part puts every probe on the very
+	// last bit). After an aging reset and after a clear the marks must be forgotten.
+	edgeN := 0
+	for _, nc := range []int64{2, 3, 4, 5, 8, 16, 64, 100, 1000, 5000} {
+		for _, h := range []uint64{0xffffffff00000000, 0xfffffff800000000, ^uint64(0), 1 << 63, 0, 0x00000001ffffffff} {
+			for _, op := range []string{"reset", "clear"} {
+				edgeN++
+				var bad string
+				p := c18Try(func() {
+					tl := ristretto.VerifNewTinyLFU(nc)
+					tl.Increment(h)
+					tl.Increment(h)
+					before := tl.Estimate(h)
+					if op == "reset" {
+						tl.Reset()
+					} else {
+						tl.Clear()
+					}
+					for _, w := range tl.DoorBits() {
+						if w != 0 {
+							bad = fmt.Sprintf("tinyLFU(NumCounters=%d): after Increment(%#x) x2 and %s the doorkeeper still holds first-access marks", nc, h, op)
+							return
+						}
+					}
+					after := tl.Estimate(h)
+					want := int64(0)
+					if op == "reset" {
+						want = (before - 1) / 2 // the sketch counter (estimate minus the mark) halved, mark forgotten
+					}
+					if after != want {
+						bad = fmt.Sprintf("tinyLFU(NumCounters=%d): estimate of %#x was %d, after %s it is %d, want %d", nc, h, before, op, after, want)
+					}
+				})
+				if p != nil {
+					bad = fmt.Sprintf("tinyLFU(NumCounters=%d) panicked on hash %#x: %v", nc, h, p)
+				}
+				if bad != "" {
+					r.Violation("C18/"+op+"-keeps-first-access-mark-of-edge-hash", bad, c18Case{Part: "doorkeeper-edge", NumCounters: nc})
+				}
+			}
+		}
+	}
+	r.Cov["doorkeeper_edge_hash_cases"] = edgeN
+	sweepN, sweepV := c18Next2PowerSweep()
+	if sweepV != nil {
+		r.Violation(sweepV.key, sweepV.what, c18Case{Part: "size-function"})
+	}
+	r.Cov["table_size_function_inputs_up_to_2^62"] = sweepN
 
 	// (b)
 	seedVecs := [][4]uint64{
